@@ -767,15 +767,15 @@ fn sub_sequences(tier: Tier) -> Sub {
 /// pairs over a core alphabet.
 fn sub_sequences_len4_core() -> Sub {
     let alpha = alphabet();
-    // 12 instructions spread over the alphabet x 4 code offsets
-    let pick: Vec<usize> = (0..12).map(|k| (k * alpha.len()) / 12).collect();
+    // 16 instructions spread over the alphabet x 4 code offsets
+    let pick: Vec<usize> = (0..16).map(|k| (k * alpha.len()) / 16).collect();
     let offs: [u32; 4] = [0, 1, 0x40, 0x100];
     let nopt = (pick.len() * offs.len()) as u64;
     let n = nopt.pow(4);
     Sub::new(
         "instruction-sequences-len4-core",
         n,
-        &format!("every sequence of exactly 4 (code offset, instruction) pairs over 12 instructions of the alphabet (indices {:?}) x factored code offset from {{0,1,0x40,0x100}} x (CAF,DAF) in {{(1,-8),(4,-16)}} x {{.debug_frame v4, .eh_frame v1}}; decreasing offsets under rel only", pick),
+        &format!("every sequence of exactly 4 (code offset, instruction) pairs over 16 instructions of the alphabet (indices {:?}) x factored code offset from {{0,1,0x40,0x100}} x (CAF,DAF) in {{(1,-8),(4,-16)}} x {{.debug_frame v4, .eh_frame v1}}; decreasing offsets under rel only", pick),
         move |ctx, i| {
             let mut r = i;
             let mut prog: Vec<(u32, WI)> = vec![];
